@@ -166,7 +166,9 @@ where
         Ok(Self {
             reader,
             max_lit: header.max_var_index * 2 + 1,
-            code: (header.input_count + 1) * 2,
+            // The code following the last defined literal can be one past `usize::MAX`; it is never
+            // used, so let it wrap instead of overflowing.
+            code: (header.input_count + 1).wrapping_mul(2),
             header,
             _lit_builder: std::marker::PhantomData,
         })
@@ -359,7 +361,7 @@ where
 
             token::required_newline(&mut self.parser.reader)?;
         }
-        self.parser.code += 2;
+        self.parser.code = self.parser.code.wrapping_add(2);
         Ok(Some(OrderedLatch {
             next_state,
             initialization,
@@ -636,7 +638,7 @@ where
             "first input code",
         )?;
 
-        self.parser.code += 2;
+        self.parser.code = self.parser.code.wrapping_add(2);
         Ok(Some(OrderedAndGate {
             inputs: [L::from_code(input_code_0), L::from_code(input_code_1)],
         }))
